@@ -77,6 +77,13 @@ ChanCpuCells ==
                       /\ NRun(ck[1], thState, thCpu) = 1
                       /\ Top(ch[TheRunning(ck[1])][ck[2]]) # 0}}
 
+\* cells a CPU timeline MAY show when no single thread runs on it: the
+\* quantity's idle default (C06: "empty, or the quantity's idle default")
+CpuDefaultCells ==
+   {<<"c", c, ChanInfo[k].ty, ChanInfo[k].cpudef>> :
+      <<c, k>> \in {ck \in Cpus \X ViewKeys :
+                      ChanInfo[ck[2]].cpudef # 0 /\ NRun(ck[1], thState, thCpu) # 1}}
+
 View == ThreadCells \cup CpuCells \cup ChanThreadCells \cup ChanCpuCells
 
 -----------------------------------------------------------------------------
